@@ -4,7 +4,7 @@ import engine as E
 
 SURFS = ["rtp", "ps", "rtsp", "sdp", "ws"]
 QUICK_CAP = {"rtp": 2600, "ps": 6000, "rtsp": 2200, "sdp": 1300, "ws": 1200}
-THOROUGH_CAP = {"rtp": 60000, "ps": 120000, "rtsp": 60000, "sdp": 40000, "ws": 30000}
+THOROUGH_CAP = {"rtp": 30000, "ps": 60000, "rtsp": 30000, "sdp": 12000, "ws": 12000}
 
 
 def el_class(el):
